@@ -12,6 +12,7 @@ THEOREMS = [
     "Wild.Link.needed_sorted_nodup",
     "Wild.Link.non_as_needed_listed",
     "Wild.Link.as_needed_listed_iff",
+    "Wild.Link.satisfies_implies_listed",
     "Wild.Link.as_needed_overridden_witness",
     "Wild.Link.C37_full_false",
 ]
